@@ -342,6 +342,21 @@ func runAny(sh *node, c anyCase) (msg, sig, outcome string) {
 			if !anyAllow {
 				return fmt.Sprintf("name %q granted although no member grants it (answers %v)", n, c.Assigns), "any:granted-without-grant", ""
 			}
+			// "reports a member's failure other than denial instead of granting": which members are consulted,
+			// and in which order, is the implementation's business, but a member that WAS asked about this name
+			// and failed must not be overruled by another member's grant.
+			for li, l := range leaves {
+				if l.ans[n] != fail {
+					continue
+				}
+				for _, asked := range l.calls {
+					for _, a := range asked {
+						if a == n {
+							return fmt.Sprintf("name %q granted although member L%d was consulted for it and failed (answers %v)", n, li, c.Assigns), "any:granted-despite-failure-of-consulted-member", ""
+						}
+					}
+				}
+			}
 		case code == codes.PermissionDenied:
 			if anyAllow && !anyFail {
 				return fmt.Sprintf("name %q denied although a member grants it and none fails", n), "any:denied-despite-grant", ""
